@@ -270,6 +270,11 @@ FINDING_PROBES = {
         entries=[dict(group="cond", kind="expr", text="x", canon="x"),
                  dict(group="unless", kind="expr", text="x", canon="x")],
         rounds=[{"model.x": "T"}]),
+    # D10 (C05/C08): a coroutine guard used as an operand is called but never awaited
+    "findings/C08_coroutine_guard_in_expression.json": dict(
+        id="D10", names={"p": [["model", "coro"]], "q": [["model", "attr"]]}, force_async=False, malformed=None,
+        entries=[dict(group="cond", kind="expr", text="p and q", canon="p and q")],
+        rounds=[{"model.p": "F", "model.q": "T"}]),
 }
 
 
@@ -283,6 +288,64 @@ def run_findings(ctx):
         if fails and name in listed:
             ctx.known_printed.append(f"{name}: {fails[0][:140]}")
     ctx.coverage["finding_probes"] = seen
+
+
+# ----------------------------------------------------------------------------- anchored-line coverage
+
+
+def line_coverage(seed, n=400):
+    """lines of statemachine/spec_parser.py (and of the guard paths in dispatcher/callbacks) executed while
+    building and driving the first n random scenarios; measured with sys.settrace in this process"""
+    import sys
+    import statemachine.spec_parser as sp
+    import statemachine.dispatcher as dp
+    import statemachine.callbacks as cb
+    targets = {sp.__file__: None, dp.__file__: ("build", "_take_callback", "search_name", "attr_method", "method"),
+               cb.__file__: ("all", "async_all", "call", "__call__", "check")}
+    hit = {f: set() for f in targets}
+
+    def tracer(frame, event, arg):
+        f = frame.f_code.co_filename
+        if f not in hit:
+            return None
+        only = targets[f]
+        if only is not None and frame.f_code.co_name not in only:
+            return None
+        if event == "line":
+            hit[f].add(frame.f_lineno)
+        return tracer
+
+    scns = [G.gen_scenario(random.Random(f"{seed}:r:{i}"), f"c{i}") for i in range(n)]
+    sys.settrace(tracer)
+    try:
+        for s in scns:
+            R.run_impl(s, R.Layout(s))
+    finally:
+        sys.settrace(None)
+
+    def code_lines(code, only):
+        out = set()
+        if only is None or code.co_name in only:
+            out |= {l for _, _, l in code.co_lines() if l is not None and l != code.co_firstlineno}
+            only_inner = None
+        else:
+            only_inner = only
+        for c in code.co_consts:
+            if hasattr(c, "co_lines"):
+                out |= code_lines(c, only_inner)
+        return out
+
+    res = {}
+    for f, only in targets.items():
+        src = open(f).read()
+        allc = code_lines(compile(src, f, "exec"), only)
+        if only is None:
+            # module-level statements run at import time, not under the tracer
+            allc -= {l for _, _, l in compile(src, f, "exec").co_lines() if l is not None}
+        allc = {l for l in allc if "pragma: no cover" not in src.split("\n")[l - 1]}
+        missed = sorted(allc - hit[f])
+        res[os.path.basename(f)] = dict(executable=len(allc), hit=len(allc & hit[f]), missed_lines=missed[:40])
+    return res
 
 
 # ----------------------------------------------------------------------------- entry
@@ -323,7 +386,7 @@ def run(ctx):
                     ctx.coverage["corpus_replayed"] = ctx.coverage.get("corpus_replayed", 0) + 1
         run_findings(ctx)
         thorough = ctx.tier == "thorough"
-        n_random = 300000 if thorough else 20000
+        n_random = 600000 if thorough else 20000
         step = 500
         jobs = [(ctx.seed, "r", lo, min(lo + step, n_random), {}) for lo in range(0, n_random, step)]
         nproc = min(16, os.cpu_count() or 1) if thorough else min(4, os.cpu_count() or 1)
@@ -333,6 +396,9 @@ def run(ctx):
             for stats, problems in pool.imap_unordered(_random_batch, jobs):
                 _merge(total, stats)
                 all_problems += problems
+                if ctx.left() < (150 if thorough else 25):      # keep room for the small-scope families
+                    ctx.coverage["random_cut_short_by_budget"] = True
+                    break
             small = {}
             for kind, size in fams:
                 n = len(family(kind, size))
@@ -352,6 +418,10 @@ def run(ctx):
                      "one guard entry (cond or unless) per machine, spelling and blanks varied by index",
                 families=small)
         ctx.coverage["generation_s"] = round(time.time() - t0, 1)
+        try:
+            ctx.coverage["anchored_line_coverage"] = line_coverage(ctx.seed)
+        except Exception as e:  # noqa: BLE001  (coverage is informative only)
+            ctx.coverage["anchored_line_coverage"] = "unavailable: " + repr(e)[:100]
         ctx.coverage["exhaustive"] = False   # the property's input space is infinite; see exhaustive_small_scope
         report(ctx, sorted(all_problems, key=lambda p: (not p[1], len(json.dumps(p[0])))), limit=4)
 
@@ -367,9 +437,22 @@ def run(ctx):
         providers_per_name=total.get("providers"), malformed=total.get("malformed"),
         entries_written_tight=total.get("tight"), async_scenarios=total.get("async_"))
     rng = random.Random(f"{ctx.seed}:samples")
-    ctx.coverage["samples"] = [
-        [en.get("text", en.get("name")) for en in G.gen_scenario(random.Random(f"{ctx.seed}:r:{i}"), "s")["entries"]]
-        for i in rng.sample(range(1000), 6)]
+    samples = []
+    for i in rng.sample(range(1000), 6):
+        sc = G.gen_scenario(random.Random(f"{ctx.seed}:r:{i}"), f"r{i}")
+        lay = R.Layout(sc)
+        impl = R.run_impl(sc, lay)
+        first = impl["rounds"][0] if impl["rounds"] else None
+        samples.append(dict(
+            id=sc["id"],
+            cond=[en.get("text", en.get("name")) for en in sc["entries"] if en["group"] == "cond"],
+            unless=[en.get("text", en.get("name")) for en in sc["entries"] if en["group"] == "unless"],
+            providers={n: [p for p, _ in ps] for n, ps in sc["names"].items()},
+            construct=impl["construct"],
+            first_event=None if first is None else dict(
+                values=sc["rounds"][0], outcome=first[0],
+                reads=[f"{lay.slots[j][0]}.{lay.slots[j][1]}" for j in first[1]])))
+    ctx.coverage["samples"] = samples
     ctx.assumptions += [
         "guards do not change what other guards read during one evaluation (the library evaluates the middle "
         "operand of a chained comparison twice; with pure reads this is unobservable except in the read log)",
